@@ -68,6 +68,11 @@ Plain(x, i) == IF i > Len(x) THEN ""
 RECURSIVE AllAlpha(_, _)
 AllAlpha(x, i) == i > Len(x) \/ (IsAlpha(At(x, i)) /\ AllAlpha(x, i + 1))
 DashFreeKeywords(alts) == SelectSeq(alts, LAMBDA a : a # "" /\ AllAlpha(a, 1))
+\* alternatives that are function calls name(...) with an all-letter name: typing the name selects the whole call
+RECURSIVE ParenAt(_, _)
+ParenAt(x, i) == IF i > Len(x) THEN 0 ELSE IF At(x, i) = "(" THEN i ELSE ParenAt(x, i + 1)
+IsFnAlt(a) == LET p == ParenAt(a, 1) IN p > 1 /\ At(a, Len(a)) = ")" /\ AllAlpha(SubSeq(a, 1, p - 1), 1)
+FnKeywords(alts) == LET f == SelectSeq(alts, IsFnAlt) IN [i \in 1..Len(f) |-> [name |-> SubSeq(f[i], 1, ParenAt(f[i], 1) - 1), out |-> Plain(f[i], 1)]]
 RECURSIVE FieldInQuotes(_, _, _)
 FieldInQuotes(x, i, q) == i <= Len(x) /\ (IF q # "" THEN (IF At(x, i) = q THEN FieldInQuotes(x, i + 1, "")
                                                            ELSE (At(x, i) = "$" /\ At(x, i + 1) = "{") \/ FieldInQuotes(x, i + 1, q))
@@ -132,6 +137,6 @@ KeywordSelf == k > 0 => \A i \in 1..Len(Kws) : \A form \in {Kws[i], UpperStr(Kws
 
 Dump == k > 0 => PrintT(<<"VEC", ToJson([key |-> Table[k].key, kind |-> D.kind, prop |-> D.prop,
                                  first |-> IF D.alts = <<>> THEN "" ELSE Plain(D.alts[1], 1),
-                                 nalts |-> Len(D.alts), body |-> D.body, keywords |-> Kws,
+                                 nalts |-> Len(D.alts), body |-> D.body, keywords |-> Kws, fnkeywords |-> FnKeywords(D.alts),
                                  quotedField |-> FieldInQuotes(D.body, 1, "")])>>)
 =============================================================================
